@@ -14,7 +14,7 @@ let rec int_of_nat = function O -> 0 | S k -> 1 + int_of_nat k
 
 let exn_name = function
   | ExDivision -> "division_by_zero" | ExArrSize -> "wrong_array_size"
-  | ExIndexOob -> "index_out_of_bounds" | ExInvalid -> "invalid" | ExOverflow -> "overflow"
+  | ExIndexOob -> "index_out_of_bounds" | ExInvalid -> "invalid_domain" | ExOverflow -> "overflow"
   | ExUnderflow -> "underflow" | ExInexact -> "inexact" | ExNil -> "nil_pointer"
   | ExFfi -> "ffi_fail"
 let all_exns = [ExDivision; ExArrSize; ExIndexOob; ExInvalid; ExOverflow; ExUnderflow; ExInexact; ExNil; ExFfi]
